@@ -216,6 +216,10 @@ class SimNet:
             op.rec = rec
             self.log.append(("open", rec.sid, rec.endpoint))
             return ("ok", rec)
+        if k == "sleep":
+            self.sleeps.append(op.args["seconds"])
+            self.log.append(("sleep", op.args["seconds"]))
+            return ("ok", None)
         rec = self.streams[op.sid]
         if k == "start_tls":
             if fault:
@@ -240,6 +244,11 @@ class SimNet:
             return ("ok", rec)
         if k == "write":
             if fault:
+                if fault == "WriteError":
+                    # a connection that can no longer be written to is gone: the peer's side
+                    # is closed as well (reads see EOF instead of blocking for ever)
+                    rec.eof = True
+                    rec.inbuf.clear()
                 return ("exc", self.make_exc(fault))
             if not rec.open:
                 return ("exc", httpcore.WriteError("stream closed"))
